@@ -229,7 +229,7 @@ func (x *Exec) translateSpecBody(si *specInfo, decl *ast.FuncDecl, info *types.I
 	c := x.c
 	sx := &Exec{eng: x.eng, c: c, mode: x.mode, con: nil, info: info, key: si.Name, counters: map[string]int{}, boxed: map[types.Object]bool{},
 		placehold: map[string]Val{}, assumed: x.assumed, abstract: x.abstract, specMode: true, specHeap: map[string]*Term{}, loopOrd: map[ast.Stmt]int{},
-		rangeFacts: map[int]bool{}, callCount: map[string]int{}, specs: x.specs, globalInit: map[string]bool{}, rootCon: x.rootOrCon()}
+		rangeFacts: map[int]bool{}, callCount: map[string]int{}, specs: x.specs, globalInit: map[string]bool{}, callSeen: map[string]int{}, rootCon: x.rootOrCon()}
 	var depNames []string
 	sx.specDeps = &depNames
 	// dependencies known from a previous iteration keep their order
